@@ -171,6 +171,8 @@ Theorem c08_error_arm_is_the_source :
 Proof. exact after_result_tie. Qed.
 Theorem c08_loop_translation_complete : src_problems_conn_loop = 0%nat.
 Proof. reflexivity. Qed.
+Theorem c08_copy_buffer_is_the_source : copy_cap = N.to_nat src_copy_buf_len /\ src_problems_copy_async = 0%nat.
+Proof. exact copy_buf_tie. Qed.
 Theorem c08_head_is_the_source :
   forall reason ct_text r close, eval_head reason ct_text r close = build_head reason ct_text false r close.
 Proof. exact response_head_tie. Qed.
@@ -195,3 +197,4 @@ Print Assumptions c08_error_arm_is_the_source.
 Print Assumptions c08_loop_translation_complete.
 Print Assumptions c08_head_is_the_source.
 Print Assumptions c08_serialiser_translation_complete.
+Print Assumptions c08_copy_buffer_is_the_source.
